@@ -382,6 +382,16 @@ def uid_generator(rep, quick, seed):
         else:
             raise ToolError("tlapm did not finish on UniqueIdGenProof.tla:\n" + pr.stdout[-2000:])
     out["tlaps_obligations"] = int(m.group(1)) if m else 0
+    # identity of ids: ==, hashing, sets and the DOM's notion of a collision over a structured family of id pairs
+    from bin_checks import validate_cases
+    ptrace = os.path.join(OUT, "C12_uid_pairs.ndjson")
+    rbxv(["uid-pairs"], stdout_path=ptrace)
+    npairs, pfails = validate_cases("UidPairTrace", ptrace, {})
+    for c in pfails:
+        rep.violation("uidpair|%s" % c["clause"], lambda c=c: {"case": c}, "%s: clause %s failed" % (c["ep"], c["clause"]))
+    out["id_pairs"] = npairs
+    if not rep.violations and os.path.exists(ptrace):
+        os.remove(ptrace)
     threads, calls = (8, 4000) if quick else (16, 10000)
     trace = os.path.join(OUT, "C12_uid_trace.ndjson")
     rbxv(["uid-stress", "--threads", threads, "--calls", calls], stdout_path=trace)
